@@ -209,7 +209,13 @@ class Cx:
         if state is not None:
             after = state()
             self.cnt("c%d_state_checks" % cls)
-            if before != after and raised:          # an accepted call is already reported above
+            if before != after and raised and cls not in (6, 7):
+                # The statement demands rejection, and (last sentence) that no entry other than the addressed one is read or
+                # written; it does not promise that an object is untouched by a call that was rejected for ANOTHER part of
+                # its input (set_k applies kf before refusing kr; set_boundary_conditions resets before validating).
+                # Observed and counted, not judged.
+                self.cnt("observed_not_judged:state-changed-after-rejection/" + what.split("/", 1)[-1].replace("-accepted", ""))
+            elif before != after and raised:          # an accepted call is already reported above
                 self.add(cls, "state-changed/" + (info.pop("sc_tag", None) or what.split("/", 1)[-1].replace("-accepted", "")), site, repro=repro,
                          raised=e_, note="object state differs after the %s call" % ("rejected" if raised else "accepted"),
                          **info)
